@@ -24,6 +24,9 @@ func init() {
 
 const probePort = 7007
 
+// ftpSinkAddr: 10,1,0,10,4,1 in the PORT commands of the hostile FTP dialogues
+const ftpSinkAddr = "10.1.0.10:1025"
+
 func c01Services() []svcSpec {
 	var out []svcSpec
 	only := os.Getenv("VERIF_SERVICES")
@@ -156,6 +159,10 @@ func buildHostileScenario(r *Rng, idx int, maxConns int, endings []string) *Scen
 					continue
 				}
 				if len(m) == 0 {
+					continue
+				}
+				if bytes.Equal(m, pasvConnectMarker) {
+					a.Ops = append(a.Ops, Op{K: "pasvconnect"})
 					continue
 				}
 				op := SendOp(m, nil, "")
@@ -348,12 +355,41 @@ func runHostile(t *testing.T, sc *Scenario, res *Result, afterBoot func(w *World
 			w.Obs.BootErr = err.Error()
 			return
 		}
+		// the address FTP clients of this engine name in PORT/EPRT: a client-side listener that accepts the
+		// service's active-mode data connections and then neither reads nor closes (the client has gone quiet)
+		if l, err := w.Net.ListenTCP(mustTCPAddr(ftpSinkAddr), "client-sink"); err == nil {
+			go func() {
+				for {
+					c, err := l.Accept()
+					if err != nil {
+						return
+					}
+					_ = c
+				}
+			}()
+		}
 		if afterBoot != nil {
 			afterBoot(w)
 		}
+		pasvN := 0
 		w.Custom = func(w *World, ai int, op Op) {
 			if op.K == "sshsess" {
 				sshSessionOp(w, ai, op)
+			}
+			if op.K == "pasvconnect" {
+				// the passive port of the last 227 reply this client received; the data connection stays open and silent
+				ms := pasvRe.FindAllSubmatch(w.Obs.Conns[ai].Recv, -1)
+				if len(ms) == 0 {
+					return
+				}
+				m := ms[len(ms)-1]
+				var p1, p2 int
+				fmt.Sscanf(string(m[5]), "%d", &p1)
+				fmt.Sscanf(string(m[6]), "%d", &p2)
+				src := mustTCPAddr(w.Sc.Actors[ai].Src)
+				pasvN++
+				src.Port = 45000 + pasvN
+				w.Net.Connect(src, mustTCPAddr(fmt.Sprintf("%s:%d", sensorIP, p1*256+p2)))
 			}
 		}
 		w.Play()
@@ -361,6 +397,7 @@ func runHostile(t *testing.T, sc *Scenario, res *Result, afterBoot func(w *World
 			return
 		}
 		w.Drain()
+		debugDumpGoroutines()
 		if afterDrain != nil {
 			afterDrain(w)
 		}
